@@ -125,7 +125,9 @@ func (i Info) AppendHash(dst []byte, h hash.Hash) []byte {
 	// Hash forms
 	for _, infoForm := range i.Form {
 		var formType string
-		fields := make([]string, 0, infoForm.Len()-1)
+		// The capacity is only a hint (every field but FORM_TYPE); a form without
+		// any fields must not make it negative.
+		fields := make([]string, 0, infoForm.Len())
 		infoForm.ForFields(func(f form.FieldData) {
 			if f.Var == "FORM_TYPE" {
 				formType, _ = infoForm.GetString("FORM_TYPE")
